@@ -414,6 +414,9 @@ func (s *Set) Value(_ context.Context, t *dials.Type) (reflect.Value, error) {
 			return reflect.Value{}, fmt.Errorf("failed to parse: %s", err)
 		}
 	}
+	// Value may be called more than once (one Set handed to several
+	// Configs): every call starts from an empty translated value.
+	s.trnslVal.Set(reflect.Zero(s.trnslVal.Type()))
 	var setErr error
 	val := reflect.New(t.Type())
 	s.Flags.Visit(func(f *flag.Flag) {
